@@ -6,7 +6,9 @@ package verifsim
 
 import (
 	"context"
+	"encoding/json"
 	"os"
+	"regexp"
 	"crypto/sha256"
 	"encoding/binary"
 	"encoding/hex"
@@ -124,7 +126,8 @@ type Env struct {
 	Note      map[string]any
 	simSec    float64
 	unstable  string // set when the run met a source of order the simulator does not control (DESIGN 8.1)
-	RunIndex  uint64 // index of the run within the batch (systematic enumeration of short fault scripts)
+	KnownHits map[string]string // known-finding classes met in this run (class -> first message)
+	RunIndex  uint64            // index of the run within the batch (systematic enumeration of short fault scripts)
 }
 
 const traceKeepMax = 400
@@ -260,6 +263,62 @@ func (e *Env) Report(class, format string, args ...any) {
 }
 
 func (e *Env) Violated() bool { e.mu.Lock(); defer e.mu.Unlock(); return e.viol != nil }
+
+// known findings (status "known" in /verif/known_findings.json, path in VERIF_KNOWN_FILE): violation
+// classes matching one of them are recorded and, where the oracle can safely go on, do not abort the run
+var (
+	knownOnce sync.Once
+	knownRes  []*regexp.Regexp
+)
+
+func knownClass(class string) bool {
+	knownOnce.Do(func() {
+		b, err := os.ReadFile(os.Getenv("VERIF_KNOWN_FILE"))
+		if err != nil {
+			return
+		}
+		var f struct {
+			Findings []struct {
+				Status string `json:"status"`
+				Key    string `json:"key"`
+			} `json:"findings"`
+		}
+		if json.Unmarshal(b, &f) != nil {
+			return
+		}
+		for _, k := range f.Findings {
+			if k.Status == "known" {
+				if re, err := regexp.Compile(k.Key); err == nil {
+					knownRes = append(knownRes, re)
+				}
+			}
+		}
+	})
+	for _, re := range knownRes {
+		if re.MatchString(class) {
+			return true
+		}
+	}
+	return false
+}
+
+// FailfSoft is Failf for oracle clauses after which checking can safely continue: a violation whose
+// class is a listed known finding is recorded (reported as KNOWN-FINDING by the driver) and the run goes on,
+// so that the rest of the run is still judged; anything else aborts like Failf.
+func (e *Env) FailfSoft(class, format string, args ...any) {
+	if knownClass(class) {
+		e.mu.Lock()
+		if e.KnownHits == nil {
+			e.KnownHits = map[string]string{}
+		}
+		if _, ok := e.KnownHits[class]; !ok {
+			e.KnownHits[class] = fmt.Sprintf(format, args...)
+		}
+		e.mu.Unlock()
+		return
+	}
+	e.Failf(class, format, args...)
+}
 
 // Failf reports a violation and aborts the run. Driver goroutine only.
 func (e *Env) Failf(class, format string, args ...any) {
@@ -431,6 +490,7 @@ type RunResult struct {
 	Overlap    bool
 	Note       map[string]any
 	Unstable   string
+	KnownHits  map[string]string
 }
 
 var logSetup sync.Once
@@ -495,6 +555,7 @@ func RunOne(t *testing.T, p Property, tape *Tape, rngSeed uint64, runIdx uint64)
 	res.Overlap = env.Overlap
 	res.Note = env.Note
 	res.Unstable = env.unstable
+	res.KnownHits = env.KnownHits
 	if res.Unstable != "" {
 		res.TraceHash = "unstable:" + res.Unstable
 	}
